@@ -139,7 +139,7 @@ pub fn property() -> Property {
         subchecks: vec![SubCheck {
             name: "attrs-path-vs-map-path",
             rule: "G-MAP (all modes + converts, <=50 objects) x G-DIFF incl. passed_objects (0..N+3, u32::MAX) x score builder spec (each of accuracy/combo/misses/every hit-result setter independently absent or 0..N+3, occasionally >>N, both priorities). Oracle: result of the mode-specific builder on the map == result from 12 other entry points (generic Performance::new on the explicitly converted map by ref/value, map.performance(), Performance::new/from(DifficultyAttributes), attrs.performance(), mode-specific attrs.performance()/Performance::new(attrs), the same for PerformanceAttributes incl. try_new) with the same Difficulty and score setters applied, plus the same settings supplied through the individual Performance setters in a generated order on both the map and the attribute path; embedded difficulty == one-shot difficulty. Non-trivial: score spec non-default, pp>0, settings non-default.",
-            quick: 12_000,
+            quick: 40_000,
             thorough: 200_000,
             tape_len: 1500,
             f: case,
